@@ -53,4 +53,1454 @@ def kwFacts (k : K) : Bool :=
 theorem kwFacts_all (k : K) : kwFacts k = true := by
   cases k <;> decide +kernel
 
+
+theorem gapBytes_cons (i : GapItem) (g : Gap) : gapBytes (i :: g) = i.bytes ++ gapBytes g := by
+  simp [gapBytes]
+
+theorem gapBytes_nil : gapBytes [] = [] := rfl
+
+/-! ## gaps -/
+
+theorem skipLine_append : ∀ (t x : Bytes), t.all (fun b => b != 10) = true → skipLine (t ++ 10 :: x) = x := by
+  intro t x
+  induction t with
+  | nil => intro _; simp [skipLine]
+  | cons a t ih =>
+    intro h
+    simp only [List.all_cons, Bool.and_eq_true, bne_iff_ne, ne_eq] at h
+    simp only [List.cons_append, skipLine]
+    have : (a == 10) = false := by simp [h.1]
+    simp only [this, Bool.false_eq_true, ↓reduceIte]
+    exact ih h.2
+
+theorem skipBlock_append (x : Bytes) : ∀ (t : Bytes), noClose t = true → skipBlock (t ++ 42 :: 47 :: x) = some x := by
+  intro t
+  fun_induction noClose t with
+  | case1 => intro h; simp at h
+  | case2 a r hne ih =>
+    intro h
+    simp only [List.cons_append]
+    unfold skipBlock
+    split
+    · rename_i r' heq
+      simp only [List.cons.injEq] at heq
+      obtain ⟨rfl, heq⟩ := heq
+      cases r with
+      | nil => simp at heq
+      | cons b r =>
+        simp only [List.cons_append, List.cons.injEq] at heq
+        obtain ⟨rfl, _⟩ := heq
+        exact (hne r rfl rfl).elim
+    · rename_i heq
+      simp only [List.cons.injEq] at heq
+      obtain ⟨_, rfl⟩ := heq
+      exact ih h
+    · rename_i heq; simp at heq
+  | case3 => intro _; simp [skipBlock]
+
+/-- the input does not start with white space or a comment -/
+def gapStop : Bytes → Bool
+  | [] => true
+  | c :: r => !isWs c && c != 35 && !(c == 47 && (match r with | 47 :: _ => true | 42 :: _ => true | _ => false))
+
+theorem skipGap_stop (f : Nat) (x : Bytes) (h : gapStop x = true) : skipGap (f + 1) x = .ok x := by
+  unfold skipGap
+  cases x with
+  | nil => rfl
+  | cons c r =>
+    simp only [gapStop, Bool.and_eq_true, Bool.not_eq_true', bne_iff_ne, ne_eq] at h
+    obtain ⟨⟨h1, h2⟩, h3⟩ := h
+    have h2' : (c == 35) = false := by simp [h2]
+    simp only [h1, Bool.false_eq_true, ↓reduceIte, h2']
+    split
+    · rename_i h47
+      simp only [h47, Bool.true_and] at h3
+      split <;> simp_all
+    · rfl
+
+
+
+theorem skipGap_gap : ∀ (g : Gap) (x : Bytes) (f : Nat), g.all GapItem.ok = true → gapStop x = true → g.length < f →
+    skipGap f (gapBytes g ++ x) = .ok x := by
+  intro g
+  induction g with
+  | nil =>
+    intro x f _ hx hf
+    cases f with
+    | zero => omega
+    | succ f => simpa [gapBytes_nil] using skipGap_stop f x hx
+  | cons i g ih =>
+    intro x f hg hx hf
+    cases f with
+    | zero => omega
+    | succ f =>
+      simp only [List.all_cons, Bool.and_eq_true] at hg
+      have hf' : g.length < f := by simp at hf; omega
+      have ih' := ih x f hg.2 hx hf'
+      rw [gapBytes_cons]
+      cases i with
+      | ws c =>
+        have hc : isWs c = true := hg.1
+        simp only [GapItem.bytes, List.cons_append, List.nil_append]
+        unfold skipGap
+        simp only [hc, ↓reduceIte]
+        exact ih'
+      | hash t =>
+        have ht : t.all (fun b => b != 10) = true := by
+          have := hg.1
+          simp only [GapItem.ok, List.all_eq_true, Bool.and_eq_true] at this ⊢
+          intro b hb; exact (this b hb).1.1
+        simp only [GapItem.bytes, List.cons_append, List.append_assoc, List.nil_append]
+        unfold skipGap
+        simp only [show isWs 35 = false from rfl, Bool.false_eq_true, ↓reduceIte, BEq.rfl]
+        rw [skipLine_append t _ ht]
+        exact ih'
+      | line t =>
+        have ht : t.all (fun b => b != 10) = true := by
+          have := hg.1
+          simp only [GapItem.ok, List.all_eq_true, Bool.and_eq_true] at this ⊢
+          intro b hb; exact (this b hb).1.1
+        simp only [GapItem.bytes, List.cons_append, List.append_assoc, List.nil_append]
+        unfold skipGap
+        simp only [show isWs 47 = false from rfl, Bool.false_eq_true, ↓reduceIte, BEq.rfl,
+          show (47 == 35) = false from rfl]
+        rw [skipLine_append t _ ht]
+        exact ih'
+      | block t =>
+        have ht : noClose t = true := by
+          have := hg.1
+          simp only [GapItem.ok, Bool.and_eq_true] at this
+          exact this.1
+        simp only [GapItem.bytes, List.cons_append, List.append_assoc, List.nil_append]
+        unfold skipGap
+        simp only [show isWs 47 = false from rfl, Bool.false_eq_true, ↓reduceIte, BEq.rfl,
+          show (47 == 35) = false from rfl]
+        rw [skipBlock_append _ t ht]
+        exact ih'
+
+
+theorem all_mono {p q : Nat → Bool} {l : Bytes} (h : l.all p = true) (hpq : ∀ b, p b = true → q b = true) :
+    l.all q = true := by
+  simp only [List.all_eq_true] at h ⊢
+  intro b hb; exact hpq b (h b hb)
+
+theorem asc_item (i : GapItem) (h : i.ok = true) : asc i.bytes = true := by
+  cases i with
+  | ws c =>
+    simp only [GapItem.ok, isWs, Bool.or_eq_true, beq_iff_eq] at h
+    simp only [GapItem.bytes, asc, List.all_cons, List.all_nil, Bool.and_true, Bool.and_eq_true, bne_iff_ne, ne_eq,
+      decide_eq_true_eq]
+    omega
+  | hash t =>
+    simp only [GapItem.ok] at h
+    have : asc t = true := all_mono h (by intro b hb; simp at hb ⊢; omega)
+    simp [GapItem.bytes, asc_cons, asc_append, this, asc_nil]
+  | line t =>
+    simp only [GapItem.ok] at h
+    have : asc t = true := all_mono h (by intro b hb; simp at hb ⊢; omega)
+    simp [GapItem.bytes, asc_cons, asc_append, this, asc_nil]
+  | block t =>
+    simp only [GapItem.ok, Bool.and_eq_true] at h
+    have : asc t = true := h.2
+    simp [GapItem.bytes, asc_cons, asc_append, this, asc_nil]
+
+theorem asc_gap : ∀ (g : Gap), g.all GapItem.ok = true → asc (gapBytes g) = true := by
+  intro g
+  induction g with
+  | nil => intro _; rfl
+  | cons i g ih =>
+    intro h
+    simp only [List.all_cons, Bool.and_eq_true] at h
+    rw [gapBytes_cons, asc_append, asc_item i h.1, ih h.2]; rfl
+
+theorem item_length_pos (i : GapItem) : 0 < i.bytes.length := by
+  cases i <;> simp [GapItem.bytes]
+
+theorem gap_length_le : ∀ (g : Gap), g.length ≤ (gapBytes g).length := by
+  intro g
+  induction g with
+  | nil => simp
+  | cons i g ih =>
+    rw [gapBytes_cons]
+    have := item_length_pos i
+    simp only [List.length_cons, List.length_append]
+    omega
+
+/-- the look-ahead after a function name removes a prefix of the gap only -/
+theorem skipSpaceC_gap (y : Bytes) (hy : match y with | [] => True | c :: _ => isSpace c = false ∧ c ≠ 35) :
+    ∀ (g : Gap) (n : Nat), g.all GapItem.ok = true →
+    ∃ g' : Gap, g'.all GapItem.ok = true ∧ (gapBytes g').length ≤ (gapBytes g).length ∧
+      skipSpaceC n (gapBytes g ++ y) = gapBytes g' ++ y := by
+  intro g
+  induction g with
+  | nil =>
+    intro n _
+    refine ⟨[], rfl, Nat.le_refl _, ?_⟩
+    simp only [gapBytes_nil, List.nil_append]
+    cases n with
+    | zero => rfl
+    | succ n =>
+      cases y with
+      | nil => rfl
+      | cons c r =>
+        simp only at hy
+        have h2 : (c == 35) = false := by simp [hy.2]
+        simp [skipSpaceC, hy.1, h2]
+  | cons i g ih =>
+    intro n hg
+    cases n with
+    | zero => exact ⟨i :: g, hg, Nat.le_refl _, rfl⟩
+    | succ n =>
+      have hg' := hg
+      simp only [List.all_cons, Bool.and_eq_true] at hg'
+      obtain ⟨g', h1, h2, h3⟩ := ih n hg'.2
+      have hlen : (gapBytes g').length ≤ (gapBytes (i :: g)).length := by
+        rw [gapBytes_cons, List.length_append]; omega
+      cases i with
+      | ws c =>
+        have hc : isWs c = true := hg'.1
+        refine ⟨g', h1, hlen, ?_⟩
+        rw [gapBytes_cons]
+        simp only [GapItem.bytes, List.cons_append, List.nil_append, skipSpaceC, isSpace, hc, Bool.true_or, ↓reduceIte]
+        exact h3
+      | hash t =>
+        have ht : t.all (fun b => b != 10) = true := all_mono hg'.1 (by intro b hb; simp at hb ⊢; omega)
+        refine ⟨g', h1, hlen, ?_⟩
+        rw [gapBytes_cons]
+        simp only [GapItem.bytes, List.cons_append, List.append_assoc, List.nil_append, skipSpaceC,
+          show isSpace 35 = false from rfl, Bool.false_eq_true, ↓reduceIte, BEq.rfl]
+        rw [skipLine_append t _ ht]
+        exact h3
+      | line t =>
+        refine ⟨.line t :: g, hg, Nat.le_refl _, ?_⟩
+        rw [gapBytes_cons]
+        simp [GapItem.bytes, skipSpaceC, show isSpace 47 = false from rfl]
+      | block t =>
+        refine ⟨.block t :: g, hg, Nat.le_refl _, ?_⟩
+        rw [gapBytes_cons]
+        simp [GapItem.bytes, skipSpaceC, show isSpace 47 = false from rfl]
+
+
+/-! ## strings -/
+
+theorem isHex_hexDigit (n : Nat) (h : n < 16) : isHex (hexDigit n) = true := by
+  simp only [isHex, hexDigit, Bytes.isDigit]
+  split <;> simp <;> omega
+
+theorem hexVal_hexDigit (n : Nat) (h : n < 16) : hexVal (hexDigit n) = n := by
+  simp only [hexVal, hexDigit, Bytes.isDigit]
+  by_cases h10 : n < 10
+  · simp only [h10, ↓reduceIte]
+    have : (decide (48 ≤ 48 + n) && decide (48 + n ≤ 57)) = true := by simp; omega
+    simp only [this, ↓reduceIte]; omega
+  · simp only [h10, ↓reduceIte]
+    have : (decide (48 ≤ 87 + n) && decide (87 + n ≤ 57)) = false := by simp; omega
+    simp only [this, Bool.false_eq_true, ↓reduceIte]
+    have : 97 ≤ 87 + n := by omega
+    simp only [this, ↓reduceIte]; omega
+
+theorem hex2_hexDigit (b : Nat) (h : b < 256) : hex2 (hexDigit (b / 16)) (hexDigit (b % 16)) = b := by
+  have h1 : b / 16 < 16 := by omega
+  have h2 : b % 16 < 16 := by omega
+  rw [hex2, hexVal_hexDigit _ h1, hexVal_hexDigit _ h2]; omega
+
+theorem scanStr_hex_step (f : Nat) (r acc : Bytes) (x y : Nat) (hx : isHex x = true) (hy : isHex y = true) :
+    scanStr (f + 1) (92 :: 120 :: x :: y :: r) acc = scanStr f r (acc ++ [hex2 x y]) := by
+  conv => lhs; unfold scanStr
+  simp only [show (120 == 97) = false from rfl, show (120 == 98) = false from rfl, show (120 == 102) = false from rfl,
+    show (120 == 110) = false from rfl, show (120 == 114) = false from rfl, show (120 == 116) = false from rfl,
+    show (120 == 118) = false from rfl, show (120 == 92) = false from rfl, show (120 == 34) = false from rfl,
+    Bool.false_eq_true, ↓reduceIte, BEq.rfl, hx, hy, Bool.and_self]
+
+theorem scanStr_esc_step (f : Nat) (b : Nat) (hb : b < 256) (r acc : Bytes) :
+    scanStr (f + 1) (escByte b ++ r) acc = scanStr f r (acc ++ [b]) := by
+  have h1 : b / 16 < 16 := by omega
+  have h2 : b % 16 < 16 := by omega
+  simp only [escByte, List.cons_append, List.nil_append]
+  rw [scanStr_hex_step f r acc _ _ (isHex_hexDigit _ h1) (isHex_hexDigit _ h2), hex2_hexDigit b hb]
+
+theorem scanStr_plain_step (f : Nat) (b : Nat) (hb : plainByte b = true) (r acc : Bytes) :
+    scanStr (f + 1) (b :: r) acc = scanStr f r (acc ++ [b]) := by
+  simp only [plainByte, Bool.and_eq_true, decide_eq_true_eq, bne_iff_ne, ne_eq] at hb
+  conv => lhs; unfold scanStr
+  split
+  · simp_all
+  · simp_all
+  · simp_all
+  · simp_all
+  · simp_all
+  · rename_i heq; simp only [List.cons.injEq] at heq; obtain ⟨rfl, rfl⟩ := heq; rfl
+
+theorem scanStr_close (f : Nat) (r acc : Bytes) : scanStr (f + 1) (34 :: r) acc = .ok (acc, r) :=
+  scanStr.eq_3 acc f r
+
+theorem scanStr_escaped (tail : Bytes) : ∀ (v : Bytes) (f : Nat) (acc : Bytes), v.all (· < 256) = true → v.length < f →
+    scanStr f ((v.map escByte).flatten ++ 34 :: tail) acc = .ok (acc ++ v, tail) := by
+  intro v
+  induction v with
+  | nil =>
+    intro f acc _ hf
+    cases f with
+    | zero => simp at hf
+    | succ f => simp [scanStr_close]
+  | cons b v ih =>
+    intro f acc hv hf
+    cases f with
+    | zero => simp at hf
+    | succ f =>
+      simp only [List.all_cons, Bool.and_eq_true, decide_eq_true_eq] at hv
+      simp only [List.map_cons, List.flatten_cons, List.append_assoc]
+      rw [scanStr_esc_step f b hv.1, ih f _ (by simpa using hv.2) (by simp at hf; omega)]
+      simp
+
+theorem scanStr_plain (tail : Bytes) : ∀ (v : Bytes) (f : Nat) (acc : Bytes), v.all (· < 256) = true → v.length < f →
+    scanStr f ((v.map fun b => if plainByte b then [b] else escByte b).flatten ++ 34 :: tail) acc = .ok (acc ++ v, tail) := by
+  intro v
+  induction v with
+  | nil =>
+    intro f acc _ hf
+    cases f with
+    | zero => simp at hf
+    | succ f => simp [scanStr_close]
+  | cons b v ih =>
+    intro f acc hv hf
+    cases f with
+    | zero => simp at hf
+    | succ f =>
+      simp only [List.all_cons, Bool.and_eq_true, decide_eq_true_eq] at hv
+      simp only [List.map_cons, List.flatten_cons, List.append_assoc]
+      have ih' := ih f (acc ++ [b]) (by simpa using hv.2) (by simp at hf; omega)
+      by_cases hp : plainByte b = true
+      · simp only [hp, ↓reduceIte, List.cons_append, List.nil_append]
+        rw [scanStr_plain_step f b hp, ih']; simp
+      · simp only [hp, Bool.false_eq_true, ↓reduceIte]
+        rw [scanStr_esc_step f b hv.1, ih']; simp
+
+theorem scanRaw_append (tail : Bytes) : ∀ (v acc : Bytes), v.contains 96 = false →
+    scanRaw (v ++ 96 :: tail) acc = some (acc ++ v, tail) := by
+  intro v
+  induction v with
+  | nil => intro acc _; simp [scanRaw]
+  | cons b v ih =>
+    intro acc h
+    simp only [List.contains_cons, Bool.or_eq_false_iff, beq_eq_false_iff_ne, ne_eq] at h
+    simp only [List.cons_append]
+    unfold scanRaw
+    split
+    · simp_all
+    · rename_i heq; simp only [List.cons.injEq] at heq; exact absurd heq.1.symm h.1
+    · rename_i heq; simp only [List.cons.injEq] at heq
+      obtain ⟨⟨rfl, rfl⟩, rfl⟩ := heq
+      rw [ih _ h.2]; simp
+
+
+/-! ## numbers: `scanNum` in pieces -/
+
+def signSplit : Bytes → Bytes × Bytes
+  | 43 :: t => ([43], t)
+  | 45 :: t => ([45], t)
+  | t => ([], t)
+
+def expPart (mant : Bytes) (e : Nat) (r4 : Bytes) : Res (Bytes × Bytes) :=
+  let (sign, r5) := signSplit r4
+  let ed := r5.takeWhile Bytes.isDigit
+  let r6 := r5.dropWhile Bytes.isDigit
+  if r6.head? == some 95 then .unsup
+  else if ed.isEmpty then .err
+  else .ok (mant ++ [e] ++ sign ++ ed, r6)
+
+def numTail (mant r3 : Bytes) (bad : Bool) : Res (Bytes × Bytes) :=
+  match r3 with
+  | e :: r4 =>
+    let le := Bytes.toLower e
+    if le == 101 then expPart mant e r4
+    else if le == 112 then .err
+    else if bad then .err
+    else .ok (mant, r3)
+  | [] => if bad then .err else .ok (mant, [])
+
+def radixB (s : Bytes) : Bool :=
+  match s with
+  | 48 :: x :: _ => let l := Bytes.toLower x; l == 120 || l == 111 || l == 98
+  | _ => false
+
+theorem scanNum_eq (s : Bytes) (seenDot : Bool) : scanNum s seenDot =
+    (let ip := if seenDot then [] else s.takeWhile Bytes.isDigit
+     let r1 := if seenDot then s else s.dropWhile Bytes.isDigit
+     let radix := !seenDot && radixB s
+     if radix || r1.head? == some 95 then .unsup else
+     let hasDot := seenDot || r1.head? == some 46
+     let r2 := if !seenDot && r1.head? == some 46 then r1.drop 1 else r1
+     let fp := if hasDot then r2.takeWhile Bytes.isDigit else []
+     let r3 := if hasDot then r2.dropWhile Bytes.isDigit else r2
+     if r3.head? == some 95 then .unsup else
+     let mant := (if seenDot then [46] else ip ++ (if hasDot then [46] else [])) ++ fp
+     numTail mant r3 (!hasDot && ip.length > 1 && ip.head? == some 48 && ip.any (fun d => d ≥ 56))) := by
+  rfl
+
+
+/-- a byte that ends a number: not a letter, digit, `_` or `.` -/
+def numStop (c : Nat) : Bool := !isIdentPart c && c != 46
+
+theorem numStop_facts {c : Nat} (h : numStop c = true) :
+    Bytes.isDigit c = false ∧ c ≠ 95 ∧ c ≠ 46 ∧ Bytes.toLower c = c ∧ c ≠ 101 ∧ c ≠ 112 ∧ c ≠ 120 ∧ c ≠ 111 ∧ c ≠ 98 ∧
+      isValueRune c = false := by
+  simp only [numStop, isIdentPart, isIdentStart, isLetter, Bytes.isLower, Bytes.isUpper, Bytes.isDigit, Bool.and_eq_true,
+    Bool.not_eq_true', Bool.or_eq_false_iff, Bool.and_eq_false_iff, decide_eq_false_iff_not, bne_iff_ne, ne_eq,
+    beq_eq_false_iff_ne] at h
+  refine ⟨?_, ?_, ?_, ?_, ?_, ?_, ?_, ?_, ?_, ?_⟩
+  · simp only [Bytes.isDigit, Bool.and_eq_false_iff, decide_eq_false_iff_not]; omega
+  · omega
+  · omega
+  · simp only [Bytes.toLower, Bytes.isUpper]
+    have : (decide (65 ≤ c) && decide (c ≤ 90)) = false := by
+      simp only [Bool.and_eq_false_iff, decide_eq_false_iff_not]; omega
+    simp [this]
+  · omega
+  · omega
+  · omega
+  · omega
+  · omega
+  · simp only [isValueRune, isUnitRune, isDurRune, isBytesRune, Bytes.isDigit, Bool.or_eq_false_iff, Bool.and_eq_false_iff,
+      decide_eq_false_iff_not, beq_eq_false_iff_ne, ne_eq]
+    omega
+
+theorem takeWhile_app_stop (p : Nat → Bool) (c : Nat) (t : Bytes) (hc : p c = false) :
+    ∀ a : Bytes, (a ++ c :: t).takeWhile p = a.takeWhile p := by
+  intro a
+  induction a with
+  | nil => simp [List.takeWhile, hc]
+  | cons x a ih => simp only [List.cons_append, List.takeWhile_cons, ih]
+
+theorem dropWhile_app_stop (p : Nat → Bool) (c : Nat) (t : Bytes) (hc : p c = false) :
+    ∀ a : Bytes, (a ++ c :: t).dropWhile p = a.dropWhile p ++ c :: t := by
+  intro a
+  induction a with
+  | nil => simp [List.dropWhile, hc]
+  | cons x a ih =>
+    simp only [List.cons_append, List.dropWhile_cons, ih]
+    split <;> simp
+
+theorem head_app_stop (v c : Nat) (t : Bytes) (hc : c ≠ v) (a : Bytes) :
+    ((a ++ c :: t).head? == some v) = (a.head? == some v) := by
+  cases a with
+  | nil => simp [hc]
+  | cons x a => simp
+
+theorem signSplit_append (x : Nat) (r x' : Bytes) :
+    signSplit ((x :: r) ++ x') = ((signSplit (x :: r)).1, (signSplit (x :: r)).2 ++ x') := by
+  simp only [List.cons_append]
+  unfold signSplit
+  split
+  · rename_i heq; simp only [List.cons.injEq] at heq; obtain ⟨rfl, rfl⟩ := heq; rfl
+  · rename_i heq; simp only [List.cons.injEq] at heq; obtain ⟨rfl, rfl⟩ := heq; rfl
+  · rename_i h1 h2
+    split
+    · rename_i heq; simp only [List.cons.injEq] at heq; exact (h1 (r ++ x') (by rw [heq.1])).elim
+    · rename_i heq; simp only [List.cons.injEq] at heq; exact (h2 (r ++ x') (by rw [heq.1])).elim
+    · rfl
+
+theorem expPart_stable {mant : Bytes} {e : Nat} {r4 text rest : Bytes} {c : Nat} (t : Bytes) (hc : numStop c = true)
+    (h : expPart mant e r4 = .ok (text, rest)) : expPart mant e (r4 ++ c :: t) = .ok (text, rest ++ c :: t) := by
+  obtain ⟨hd, h95, -⟩ := numStop_facts hc
+  cases r4 with
+  | nil => simp [expPart, signSplit] at h
+  | cons x r =>
+    unfold expPart at h ⊢
+    rw [signSplit_append]
+    generalize signSplit (x :: r) = sp at h ⊢
+    obtain ⟨sign, r5⟩ := sp
+    simp only [takeWhile_app_stop _ c t hd, dropWhile_app_stop _ c t hd, head_app_stop 95 c t h95] at h ⊢
+    split at h
+    · simp at h
+    · rename_i h1
+      simp only [h1, Bool.false_eq_true, ↓reduceIte]
+      split at h
+      · simp at h
+      · rename_i h2
+        simp only [h2, Bool.false_eq_true, ↓reduceIte]
+        simp only [Res.ok.injEq, Prod.mk.injEq] at h ⊢
+        exact ⟨h.1, by rw [h.2]⟩
+
+theorem numTail_stable {mant r3 : Bytes} {bad : Bool} {text rest : Bytes} {c : Nat} (t : Bytes) (hc : numStop c = true)
+    (h : numTail mant r3 bad = .ok (text, rest)) : numTail mant (r3 ++ c :: t) bad = .ok (text, rest ++ c :: t) := by
+  obtain ⟨hd, h95, h46, hlow, h101, h112, -⟩ := numStop_facts hc
+  cases r3 with
+  | nil =>
+    simp only [numTail] at h
+    split at h
+    · simp at h
+    · rename_i hb
+      simp only [Res.ok.injEq, Prod.mk.injEq] at h
+      obtain ⟨rfl, rfl⟩ := h
+      simp [numTail, hlow, h101, h112, hb]
+  | cons e r4 =>
+    simp only [List.cons_append, numTail] at h ⊢
+    split
+    · rename_i he
+      simp only [he, ↓reduceIte] at h
+      exact expPart_stable t hc h
+    · rename_i he
+      simp only [he, Bool.false_eq_true, ↓reduceIte] at h
+      split
+      · rename_i he2; simp [he2] at h
+      · rename_i he2
+        simp only [he2, Bool.false_eq_true, ↓reduceIte] at h
+        split
+        · rename_i hb; simp [hb] at h
+        · rename_i hb
+          simp only [hb, Bool.false_eq_true, ↓reduceIte, Res.ok.injEq, Prod.mk.injEq] at h ⊢
+          exact ⟨h.1, by rw [← h.2]; rfl⟩
+
+theorem radixB_stable {c : Nat} (t : Bytes) (hc : numStop c = true) (s : Bytes) : radixB (s ++ c :: t) = radixB s := by
+  obtain ⟨hd, h95, h46, hlow, h101, h112, h120, h111, h98, -⟩ := numStop_facts hc
+  match s with
+  | [] =>
+    simp only [List.nil_append, radixB]
+    split
+    · rename_i heq; simp only [List.cons.injEq] at heq; obtain ⟨rfl, _⟩ := heq; simp [Bytes.isDigit] at hd
+    · rfl
+  | [x] =>
+    simp only [List.cons_append, List.nil_append, radixB]
+    split
+    · rename_i heq; simp only [List.cons.injEq] at heq
+      obtain ⟨rfl, rfl, _⟩ := heq
+      simp [hlow, h120, h111, h98]
+    · rfl
+  | x :: y :: r =>
+    simp only [List.cons_append, radixB]
+    split <;> split <;> simp_all
+
+theorem scanNum_stable {s : Bytes} {d : Bool} {text rest : Bytes} {c : Nat} (t : Bytes) (hc : numStop c = true)
+    (h : scanNum s d = .ok (text, rest)) : scanNum (s ++ c :: t) d = .ok (text, rest ++ c :: t) := by
+  obtain ⟨hd, h95, h46, -⟩ := numStop_facts hc
+  rw [scanNum_eq] at h ⊢
+  cases d with
+  | true =>
+    simp only [↓reduceIte, Bool.not_true, Bool.false_and, Bool.false_or, Bool.true_or, Bool.false_eq_true,
+      takeWhile_app_stop _ c t hd, dropWhile_app_stop _ c t hd, head_app_stop 95 c t h95] at h ⊢
+    split at h
+    · simp at h
+    · rename_i h1
+      simp only [h1, Bool.false_eq_true, ↓reduceIte]
+      split at h
+      · simp at h
+      · rename_i h2
+        simp only [h2, Bool.false_eq_true, ↓reduceIte]
+        exact numTail_stable t hc h
+  | false =>
+    simp only [Bool.false_eq_true, ↓reduceIte, Bool.not_false, Bool.true_and, Bool.false_or,
+      takeWhile_app_stop _ c t hd, dropWhile_app_stop _ c t hd, head_app_stop 95 c t h95, head_app_stop 46 c t h46,
+      radixB_stable t hc] at h ⊢
+    generalize s.takeWhile Bytes.isDigit = ip at h ⊢
+    generalize s.dropWhile Bytes.isDigit = r1 at h ⊢
+    split at h
+    · simp at h
+    · rename_i h1
+      simp only [h1, Bool.false_eq_true, ↓reduceIte]
+      by_cases hdot : (r1.head? == some 46) = true
+      · simp only [hdot, ↓reduceIte] at h ⊢
+        cases r1 with
+        | nil => simp at hdot
+        | cons x r2 =>
+          simp only [List.cons_append, List.drop_succ_cons, List.drop_zero,
+            takeWhile_app_stop _ c t hd, dropWhile_app_stop _ c t hd, head_app_stop 95 c t h95] at h ⊢
+          split at h
+          · simp at h
+          · rename_i h2
+            simp only [h2, Bool.false_eq_true, ↓reduceIte]
+            exact numTail_stable t hc h
+      · simp only [hdot, Bool.false_eq_true, ↓reduceIte, head_app_stop 95 c t h95] at h ⊢
+        split at h
+        · simp at h
+        · rename_i h2
+          simp only [h2, Bool.false_eq_true, ↓reduceIte]
+          exact numTail_stable t hc h
+
+
+theorem scanUnit_stable {text rest : Bytes} {tk : Tok} {c : Nat} (t : Bytes) (hc : numStop c = true) (h128 : c < 128)
+    (h : scanUnit text rest = .ok (tk, [])) : scanUnit text (rest ++ c :: t) = .ok (tk, c :: t) := by
+  obtain ⟨-, -, -, -, -, -, -, -, -, hv⟩ := numStop_facts hc
+  cases rest with
+  | nil =>
+    simp only [scanUnit, Res.ok.injEq, Prod.mk.injEq, and_true] at h
+    subst h
+    simp only [List.nil_append, scanUnit, hv]
+    have : ¬ c ≥ 128 := by omega
+    simp [this]
+  | cons c1 r1 =>
+    have e1 := takeWhile_app_stop isValueRune c t hv (c1 :: r1)
+    have e2 := dropWhile_app_stop isValueRune c t hv (c1 :: r1)
+    simp only [List.cons_append] at e1 e2
+    unfold scanUnit at h ⊢
+    simp only [List.cons_append, e1, e2] at h ⊢
+    generalize List.takeWhile isValueRune (c1 :: r1) = cons at h ⊢
+    generalize List.dropWhile isValueRune (c1 :: r1) = rd at h ⊢
+    by_cases h1 : c1 ≥ 128
+    · simp [h1] at h
+    · simp only [h1, ↓reduceIte] at h ⊢
+      by_cases h2 : isValueRune c1 = true
+      · simp only [h2, Bool.not_true, Bool.false_eq_true, ↓reduceIte] at h ⊢
+        generalize (bytesUnits.any fun u => Bytes.ofString u == List.map Bytes.toLower (List.takeWhile isUnitRune cons)) = b1
+          at h ⊢
+        generalize (durUnits.any fun u => Bytes.ofString u == List.map Bytes.toLower (List.takeWhile isUnitRune cons)) = b2
+          at h ⊢
+        generalize Num.parseBytes (text ++ cons) = o1 at h ⊢
+        generalize parseDurationText (text ++ cons) = o2 at h ⊢
+        have h128' : ¬ c ≥ 128 := by omega
+        cases rd with
+        | nil =>
+          simp only [List.nil_append, h128', decide_false, Bool.false_eq_true, ↓reduceIte] at h ⊢
+          cases b1 <;> cases b2 <;> cases o1 <;> cases o2 <;> simp_all
+        | cons x rd' =>
+          exfalso
+          by_cases hx : x ≥ 128 <;> cases b1 <;> cases b2 <;> cases o1 <;> cases o2 <;> simp [hx] at h
+      · simp [h2] at h
+
+
+def numLike : Tok → Bool
+  | .num _ | .dur _ | .bytes _ => true
+  | _ => false
+
+/-- how `scanOne` produces a number, duration or byte-size token -/
+theorem scanOne_num_inv {s : Bytes} {tk : Tok} {rest : Bytes} (h : scanOne s = .ok (tk, rest)) (hn : numLike tk = true) :
+    ∃ c r, s = c :: r ∧ c < 128 ∧ isIdentStart c = false ∧
+      ((Bytes.isDigit c = true ∧ ∃ text rest', scanNum s false = .ok (text, rest') ∧ scanUnit text rest' = .ok (tk, rest)) ∨
+       (Bytes.isDigit c = false ∧ c = 46 ∧ (∃ d r', r = d :: r' ∧ Bytes.isDigit d = true) ∧
+          ∃ text rest', scanNum r true = .ok (text, rest') ∧ scanUnit text rest' = .ok (tk, rest))) := by
+  cases s with
+  | nil => simp [scanOne] at h
+  | cons c r =>
+    refine ⟨c, r, rfl, ?_⟩
+    unfold scanOne at h
+    simp only at h
+    by_cases h1 : c ≥ 128
+    · simp [h1] at h
+    simp only [h1, ↓reduceIte] at h
+    by_cases h2 : (c == 45 && r.head? == some 45) = true
+    · simp only [h2, ↓reduceIte] at h
+      exfalso
+      repeat' split at h
+      all_goals first
+        | (simp at h; done)
+        | (simp only [Res.ok.injEq, Prod.mk.injEq] at h; obtain ⟨rfl, _⟩ := h; simp [numLike] at hn)
+    simp only [h2, Bool.false_eq_true, ↓reduceIte] at h
+    by_cases h3 : isIdentStart c = true
+    · simp only [h3, ↓reduceIte] at h
+      exfalso
+      repeat' split at h
+      all_goals first
+        | (simp at h; done)
+        | (simp only [Res.ok.injEq, Prod.mk.injEq] at h; obtain ⟨rfl, _⟩ := h; simp [numLike] at hn)
+    simp only [h3, Bool.false_eq_true, ↓reduceIte] at h
+    refine ⟨by omega, by simpa using h3, ?_⟩
+    by_cases h4 : Bytes.isDigit c = true
+    · simp only [h4, ↓reduceIte] at h
+      left
+      refine ⟨h4, ?_⟩
+      split at h
+      · rename_i text rest' heq
+        exact ⟨text, rest', heq, h⟩
+      · simp at h
+      · simp at h
+    simp only [h4, Bool.false_eq_true, ↓reduceIte] at h
+    cases r with
+    | nil =>
+      simp only [Bool.and_false, Bool.false_eq_true, ↓reduceIte] at h
+      exfalso
+      repeat' split at h
+      all_goals first
+        | (simp at h; done)
+        | (simp only [Res.ok.injEq, Prod.mk.injEq] at h; obtain ⟨rfl, _⟩ := h; simp [numLike] at hn)
+    | cons d r' =>
+      simp only at h
+      by_cases h5 : (c == 46 && Bytes.isDigit d) = true
+      · simp only [h5, ↓reduceIte] at h
+        right
+        simp only [Bool.and_eq_true, beq_iff_eq] at h5
+        refine ⟨by simpa using h4, h5.1, ⟨d, r', rfl, h5.2⟩, ?_⟩
+        split at h
+        · rename_i text rest' heq
+          exact ⟨text, rest', heq, h⟩
+        · simp at h
+        · simp at h
+      · simp only [h5, Bool.false_eq_true, ↓reduceIte] at h
+        exfalso
+        repeat' split at h
+        all_goals first
+          | (simp at h; done)
+          | (simp only [Res.ok.injEq, Prod.mk.injEq] at h; obtain ⟨rfl, _⟩ := h; simp [numLike] at hn)
+
+theorem scanOne_num_stable {s : Bytes} {tk : Tok} {c : Nat} (t : Bytes) (hc : numStop c = true) (h128 : c < 128)
+    (h : scanOne s = .ok (tk, [])) (hn : numLike tk = true) : scanOne (s ++ c :: t) = .ok (tk, c :: t) := by
+  obtain ⟨c0, r, rfl, hc0, hid, hcase⟩ := scanOne_num_inv h hn
+  have h1 : ¬ c0 ≥ 128 := by omega
+  simp only [List.cons_append]
+  unfold scanOne
+  simp only [h1, ↓reduceIte, hid, Bool.false_eq_true]
+  rcases hcase with ⟨hd, text, rest', hs, hu⟩ | ⟨hd, rfl, ⟨d, r', rfl, hdd⟩, text, rest', hs, hu⟩
+  · have h45 : (c0 == 45) = false := by
+      simp only [Bytes.isDigit, Bool.and_eq_true, decide_eq_true_eq] at hd
+      simp only [beq_eq_false_iff_ne, ne_eq]; omega
+    have hs' := scanNum_stable t hc hs
+    simp only [List.cons_append] at hs'
+    simp only [h45, Bool.false_and, Bool.false_eq_true, ↓reduceIte, hd, hs']
+    exact scanUnit_stable t hc h128 hu
+  · have hs' := scanNum_stable t hc hs
+    simp only [List.cons_append] at hs'
+    simp only [List.cons_append, show (46 == 45) = false from rfl, Bool.false_and, Bool.false_eq_true, ↓reduceIte, hd,
+      BEq.rfl, hdd, Bool.and_self, hs']
+    exact scanUnit_stable t hc h128 hu
+
+
+/-! ## numbers: the text is ASCII -/
+
+theorem asc_of_all {p : Nat → Bool} (hp : ∀ b, p b = true → b ≠ 0 ∧ b < 128) {l : Bytes} (h : l.all p = true) :
+    asc l = true :=
+  all_mono h (by intro b hb; have := hp b hb; simp; omega)
+
+theorem digit_asc (b : Nat) (h : Bytes.isDigit b = true) : b ≠ 0 ∧ b < 128 := by
+  simp only [Bytes.isDigit, Bool.and_eq_true, decide_eq_true_eq] at h; omega
+
+theorem valueRune_asc (b : Nat) (h : isValueRune b = true) : b ≠ 0 ∧ b < 128 := by
+  simp only [isValueRune, isUnitRune, isDurRune, isBytesRune, Bytes.isDigit, Bool.or_eq_true, Bool.and_eq_true,
+    decide_eq_true_eq, beq_iff_eq] at h
+  omega
+
+theorem asc_takeWhile_digit (s : Bytes) : asc (s.takeWhile Bytes.isDigit) = true :=
+  asc_of_all digit_asc (by simp)
+
+theorem signSplit_spec (r4 : Bytes) : (signSplit r4).1 ++ (signSplit r4).2 = r4 ∧ asc (signSplit r4).1 = true := by
+  unfold signSplit
+  split <;> simp [asc]
+
+theorem expPart_spec {mant : Bytes} {e : Nat} {r4 text rest : Bytes} (h : expPart mant e r4 = .ok (text, rest))
+    (he : (Bytes.toLower e == 101) = true) : text ++ rest = mant ++ e :: r4 ∧ (asc mant = true → asc text = true) := by
+  have he' : e ≠ 0 ∧ e < 128 := by
+    simp only [Bytes.toLower, Bytes.isUpper, beq_iff_eq] at he
+    by_cases hu : (decide (65 ≤ e) && decide (e ≤ 90)) = true <;> simp only [hu, Bool.false_eq_true, ↓reduceIte] at he <;> omega
+  unfold expPart at h
+  obtain ⟨h1, h2⟩ := signSplit_spec r4
+  generalize signSplit r4 = sp at h h1 h2
+  obtain ⟨sign, r5⟩ := sp
+  simp only at h h1 h2
+  have h3 := List.takeWhile_append_dropWhile (p := Bytes.isDigit) (l := r5)
+  have h4 := asc_takeWhile_digit r5
+  generalize List.takeWhile Bytes.isDigit r5 = ed at h h3 h4
+  generalize List.dropWhile Bytes.isDigit r5 = r6 at h h3
+  by_cases c1 : (r6.head? == some 95) = true
+  · simp [c1] at h
+  · simp only [c1, Bool.false_eq_true, ↓reduceIte] at h
+    by_cases c2 : ed.isEmpty = true
+    · simp [c2] at h
+    · simp only [c2, Bool.false_eq_true, ↓reduceIte, Res.ok.injEq, Prod.mk.injEq] at h
+      obtain ⟨rfl, rfl⟩ := h
+      subst h3 h1
+      refine ⟨by simp, ?_⟩
+      intro hm
+      have : (e != 0) = true := by simp [he'.1]
+      simp [asc_append, asc_cons, hm, h2, h4, he'.2, this]
+
+theorem numTail_spec {mant r3 : Bytes} {bad : Bool} {text rest : Bytes} (h : numTail mant r3 bad = .ok (text, rest)) :
+    text ++ rest = mant ++ r3 ∧ (asc mant = true → asc text = true) := by
+  cases r3 with
+  | nil =>
+    simp only [numTail] at h
+    cases bad <;> simp at h
+    obtain ⟨rfl, rfl⟩ := h
+    exact ⟨rfl, id⟩
+  | cons e r4 =>
+    simp only [numTail] at h
+    by_cases c1 : (Bytes.toLower e == 101) = true
+    · simp only [c1, ↓reduceIte] at h
+      exact expPart_spec h c1
+    · simp only [c1, Bool.false_eq_true, ↓reduceIte] at h
+      by_cases c2 : (Bytes.toLower e == 112) = true
+      · simp [c2] at h
+      · simp only [c2, Bool.false_eq_true, ↓reduceIte] at h
+        cases bad <;> simp at h
+        obtain ⟨rfl, rfl⟩ := h
+        exact ⟨rfl, id⟩
+
+theorem scanNum_spec {s : Bytes} {d : Bool} {text rest : Bytes} (h : scanNum s d = .ok (text, rest)) :
+    text ++ rest = (if d then 46 :: s else s) ∧ asc text = true := by
+  rw [scanNum_eq] at h
+  cases d with
+  | true =>
+    simp only [↓reduceIte, Bool.not_true, Bool.false_and, Bool.false_or, Bool.true_or, Bool.false_eq_true] at h
+    by_cases c1 : (s.head? == some 95) = true
+    · simp [c1] at h
+    simp only [c1, Bool.false_eq_true, ↓reduceIte] at h
+    by_cases c2 : ((List.dropWhile Bytes.isDigit s).head? == some 95) = true
+    · simp [c2] at h
+    simp only [c2, Bool.false_eq_true, ↓reduceIte] at h
+    obtain ⟨h1, h2⟩ := numTail_spec h
+    refine ⟨?_, h2 ?_⟩
+    · rw [h1]; simp [List.takeWhile_append_dropWhile]
+    · simp [asc_cons, asc_takeWhile_digit]
+  | false =>
+    simp only [Bool.false_eq_true, ↓reduceIte, Bool.not_false, Bool.true_and, Bool.false_or] at h
+    have h3 := List.takeWhile_append_dropWhile (p := Bytes.isDigit) (l := s)
+    have h4 := asc_takeWhile_digit s
+    generalize s.takeWhile Bytes.isDigit = ip at h h3 h4
+    generalize s.dropWhile Bytes.isDigit = r1 at h h3
+    by_cases c1 : (radixB s || r1.head? == some 95) = true
+    · simp [c1] at h
+    simp only [c1, Bool.false_eq_true, ↓reduceIte] at h
+    by_cases hdot : (r1.head? == some 46) = true
+    · simp only [hdot, ↓reduceIte] at h
+      cases r1 with
+      | nil => simp at hdot
+      | cons x r2 =>
+        have hx : x = 46 := by simpa using hdot
+        subst hx
+        simp only [List.drop_succ_cons, List.drop_zero] at h
+        by_cases c2 : ((List.dropWhile Bytes.isDigit r2).head? == some 95) = true
+        · simp [c2] at h
+        simp only [c2, Bool.false_eq_true, ↓reduceIte] at h
+        obtain ⟨h1, h2⟩ := numTail_spec h
+        refine ⟨?_, h2 ?_⟩
+        · rw [h1, ← h3]; simp [List.takeWhile_append_dropWhile]
+        · simp [asc_append, asc_cons, asc_takeWhile_digit, h4]
+    · simp only [hdot, Bool.false_eq_true, ↓reduceIte] at h
+      by_cases c2 : (r1.head? == some 95) = true
+      · simp [c2] at h
+      simp only [c2, Bool.false_eq_true, ↓reduceIte] at h
+      obtain ⟨h1, h2⟩ := numTail_spec h
+      refine ⟨?_, h2 ?_⟩
+      · rw [h1, ← h3]; simp
+      · simp [h4]
+
+theorem all_of_dropWhile_nil (p : Nat → Bool) : ∀ l : Bytes, l.dropWhile p = [] → l.all p = true := by
+  intro l
+  induction l with
+  | nil => intro _; rfl
+  | cons x l ih =>
+    intro h
+    simp only [List.dropWhile_cons] at h
+    split at h
+    · rename_i hx; simp [hx, ih h]
+    · simp at h
+
+theorem scanUnit_asc {text rest : Bytes} {tk : Tok} (h : scanUnit text rest = .ok (tk, [])) : asc rest = true := by
+  cases rest with
+  | nil => rfl
+  | cons c1 r1 =>
+    unfold scanUnit at h
+    simp only at h
+    by_cases h1 : c1 ≥ 128
+    · simp [h1] at h
+    simp only [h1, ↓reduceIte] at h
+    by_cases h2 : isValueRune c1 = true
+    · simp only [h2, Bool.not_true, Bool.false_eq_true, ↓reduceIte] at h
+      have h3 : List.dropWhile isValueRune (c1 :: r1) = [] := by
+        generalize List.dropWhile isValueRune (c1 :: r1) = rd at h
+        generalize (bytesUnits.any fun u => Bytes.ofString u == List.map Bytes.toLower
+          (List.takeWhile isUnitRune (List.takeWhile isValueRune (c1 :: r1)))) = b1 at h
+        generalize (durUnits.any fun u => Bytes.ofString u == List.map Bytes.toLower
+          (List.takeWhile isUnitRune (List.takeWhile isValueRune (c1 :: r1)))) = b2 at h
+        generalize Num.parseBytes _ = o1 at h
+        generalize parseDurationText _ = o2 at h
+        cases rd with
+        | nil => rfl
+        | cons x rd' =>
+          exfalso
+          by_cases hx : x ≥ 128 <;> cases b1 <;> cases b2 <;> cases o1 <;> cases o2 <;> simp [hx] at h
+      exact asc_of_all valueRune_asc (all_of_dropWhile_nil _ _ h3)
+    · simp [h2] at h
+
+theorem scanOne_num_asc {s : Bytes} {tk : Tok} (h : scanOne s = .ok (tk, [])) (hn : numLike tk = true) : asc s = true := by
+  obtain ⟨c0, r, rfl, hc0, hid, hcase⟩ := scanOne_num_inv h hn
+  rcases hcase with ⟨hd, text, rest', hs, hu⟩ | ⟨hd, rfl, ⟨d, r', rfl, hdd⟩, text, rest', hs, hu⟩
+  · obtain ⟨h1, h2⟩ := scanNum_spec hs
+    simp only [Bool.false_eq_true, ↓reduceIte] at h1
+    rw [← h1, asc_append, h2, scanUnit_asc hu]; rfl
+  · obtain ⟨h1, h2⟩ := scanNum_spec hs
+    simp only [↓reduceIte] at h1
+    rw [← h1, asc_append, h2, scanUnit_asc hu]; rfl
+
+
+/-! ## words: identifiers and word keywords -/
+
+theorem takeWhile_all_app (p : Nat → Bool) (tail : Bytes) (ht : match tail with | d :: _ => p d = false | [] => True) :
+    ∀ r : Bytes, r.all p = true → (r ++ tail).takeWhile p = r ∧ (r ++ tail).dropWhile p = tail := by
+  intro r
+  induction r with
+  | nil =>
+    intro _
+    cases tail with
+    | nil => simp
+    | cons d t => simp only at ht; simp [ht]
+  | cons x r ih =>
+    intro h
+    simp only [List.all_cons, Bool.and_eq_true] at h
+    simp [h.1, ih h.2]
+
+theorem identStart_facts {c : Nat} (h : isIdentStart c = true) :
+    c < 128 ∧ c ≠ 0 ∧ c ≠ 45 ∧ c ≠ 35 ∧ c ≠ 47 ∧ isSpace c = false ∧ isIdentPart c = true := by
+  simp only [isIdentStart, isLetter, Bytes.isLower, Bytes.isUpper, Bool.or_eq_true, Bool.and_eq_true, decide_eq_true_eq,
+    beq_iff_eq] at h
+  refine ⟨by omega, by omega, by omega, by omega, by omega, ?_, ?_⟩
+  · simp only [isSpace, isWs, Bool.or_eq_false_iff, beq_eq_false_iff_ne, ne_eq]; omega
+  · simp only [isIdentPart, isIdentStart, isLetter, Bytes.isLower, Bytes.isUpper, Bytes.isDigit, Bool.or_eq_true,
+      Bool.and_eq_true, decide_eq_true_eq, beq_iff_eq]; omega
+
+theorem identPart_asc (b : Nat) (h : isIdentPart b = true) : b ≠ 0 ∧ b < 128 := by
+  simp only [isIdentPart, isIdentStart, isLetter, Bytes.isLower, Bytes.isUpper, Bytes.isDigit, Bool.or_eq_true,
+    Bool.and_eq_true, decide_eq_true_eq, beq_iff_eq] at h
+  omega
+
+/-- the tail does not continue a word -/
+def wordStop (tail : Bytes) : Prop := match tail with | d :: _ => isIdentPart d = false ∧ d < 128 | [] => True
+
+theorem scanOne_word {c : Nat} {r tail : Bytes} (hc : isIdentStart c = true) (hr : r.all isIdentPart = true)
+    (ht : wordStop tail) :
+    (kwOf (c :: r) = none → scanOne (c :: r ++ tail) = .ok (.ident (c :: r), tail)) ∧
+    (∀ k, kwOf (c :: r) = some k → isFunctionK k = false → scanOne (c :: r ++ tail) = .ok (.kw k, tail)) ∧
+    (∀ k, kwOf (c :: r) = some k → isFunctionK k = true →
+      (match skipSpaceC (tail.length + 1) tail with | 40 :: _ => true | 98 :: _ => true | 119 :: _ => true | _ => false) = true →
+      scanOne (c :: r ++ tail) = .ok (.kw k, skipSpaceC (tail.length + 1) tail)) := by
+  obtain ⟨h128, -, h45, -⟩ := identStart_facts hc
+  have h1 : ¬ c ≥ 128 := by omega
+  have h2 : (c == 45) = false := by simp [h45]
+  have fin : ∀ tl : Bytes, (r ++ tl).takeWhile isIdentPart = r → (r ++ tl).dropWhile isIdentPart = tl →
+      (∀ (A B : Res (Tok × Bytes)), (if (match tl with | x :: _ => decide (x ≥ 128) | [] => false) = true then A else B) = B) →
+      (kwOf (c :: r) = none → scanOne (c :: r ++ tl) = .ok (.ident (c :: r), tl)) ∧
+      (∀ k, kwOf (c :: r) = some k → isFunctionK k = false → scanOne (c :: r ++ tl) = .ok (.kw k, tl)) ∧
+      (∀ k, kwOf (c :: r) = some k → isFunctionK k = true →
+        (match skipSpaceC (tl.length + 1) tl with | 40 :: _ => true | 98 :: _ => true | 119 :: _ => true | _ => false) = true →
+        scanOne (c :: r ++ tl) = .ok (.kw k, skipSpaceC (tl.length + 1) tl)) := by
+    intro tl e1 e2 h3
+    simp only [List.cons_append]
+    unfold scanOne
+    simp only [h1, ↓reduceIte, h2, Bool.false_and, Bool.false_eq_true, hc, e1, e2]
+    refine ⟨?_, ?_, ?_⟩
+    · intro hk; simp only [hk]; exact h3 _ _
+    · intro k hk hf; simp only [hk, hf, Bool.false_eq_true, ↓reduceIte]; exact h3 _ _
+    · intro k hk hf hla
+      simp only [hk, hf, ↓reduceIte]
+      refine (h3 _ _).trans ?_
+      generalize skipSpaceC (tl.length + 1) tl = rest' at hla ⊢
+      split <;> simp_all
+  cases tail with
+  | nil =>
+    obtain ⟨e1, e2⟩ := takeWhile_all_app isIdentPart [] trivial r hr
+    exact fin [] e1 e2 (by intro A B; simp)
+  | cons d t =>
+    have ht2 : isIdentPart d = false ∧ d < 128 := ht
+    obtain ⟨e1, e2⟩ := takeWhile_all_app isIdentPart (d :: t) ht2.1 r hr
+    have hd : ¬ d ≥ 128 := by omega
+    exact fin (d :: t) e1 e2 (by intro A B; simp [hd])
+
+
+/-! ## operators -/
+
+theorem scanOne_op_nil {c : Nat} {k : K} (hc128 : c < 128) (hid : isIdentStart c = false) (hdig : Bytes.isDigit c = false)
+    (h34 : c ≠ 34) (h96 : c ≠ 96) (hk : kwOf [c] = some k) : scanOne [c] = .ok (.kw k, []) := by
+  have h1 : ¬ c ≥ 128 := by omega
+  have h2 : (c == 34) = false := by simp [h34]
+  have h3 : (c == 96) = false := by simp [h96]
+  unfold scanOne
+  simp only [h1, ↓reduceIte, List.head?_nil, Bool.and_false, Bool.false_eq_true, hid, hdig, h2, h3, hk]
+  simp
+
+theorem scanOne_op_one {c d : Nat} {t : Bytes} {k : K} (hc128 : c < 128) (hid : isIdentStart c = false)
+    (hdig : Bytes.isDigit c = false) (h34 : c ≠ 34) (h96 : c ≠ 96) (hk : kwOf [c] = some k)
+    (hk2 : kwOf [c, d] = none) (hflag : (c == 45 && d == 45) = false) (hnum : (c == 46 && Bytes.isDigit d) = false) :
+    scanOne (c :: d :: t) = .ok (.kw k, d :: t) := by
+  have h1 : ¬ c ≥ 128 := by omega
+  have h2 : (c == 34) = false := by simp [h34]
+  have h3 : (c == 96) = false := by simp [h96]
+  have h4 : (c == 45 && (d :: t).head? == some 45) = false := by
+    simpa using hflag
+  unfold scanOne
+  simp only [h1, ↓reduceIte, h4, Bool.false_eq_true, hid, hdig, hnum, h2, h3, hk, hk2]
+
+theorem scanOne_op_two {c d : Nat} {t : Bytes} {k : K} (hc128 : c < 128) (hid : isIdentStart c = false)
+    (hdig : Bytes.isDigit c = false) (h34 : c ≠ 34) (h96 : c ≠ 96) (h45 : c ≠ 45) (h46 : c ≠ 46)
+    (hk2 : kwOf [c, d] = some k) : scanOne (c :: d :: t) = .ok (.kw k, t) := by
+  have h1 : ¬ c ≥ 128 := by omega
+  have h2 : (c == 34) = false := by simp [h34]
+  have h3 : (c == 96) = false := by simp [h96]
+  have h4 : (c == 45) = false := by simp [h45]
+  have h5 : (c == 46) = false := by simp [h46]
+  unfold scanOne
+  simp only [h1, ↓reduceIte, h4, h5, Bool.false_and, Bool.false_eq_true, hid, hdig, h2, h3, hk2]
+
+/-! ## strings at the level of `scanOne` -/
+
+theorem flatten_length_ge (f : Nat → Bytes) (hf : ∀ b, 0 < (f b).length) : ∀ v : Bytes, v.length ≤ (v.map f).flatten.length := by
+  intro v
+  induction v with
+  | nil => simp
+  | cons b v ih =>
+    have := hf b
+    simp only [List.map_cons, List.flatten_cons, List.length_append, List.length_cons]
+    omega
+
+theorem scanOne_quoted {body tail v : Bytes} (hlen : v.length ≤ body.length)
+    (h : ∀ f, v.length < f → scanStr f (body ++ 34 :: tail) [] = .ok (v, tail)) :
+    scanOne (34 :: body ++ 34 :: tail) = .ok (.str v, tail) := by
+  simp only [List.cons_append]
+  unfold scanOne
+  have hs := h ((body ++ 34 :: tail).length + 1) (by simp; omega)
+  simp only [show ¬ (34 ≥ 128) by omega, ↓reduceIte, show (34 == 45) = false from rfl, Bool.false_and, Bool.false_eq_true,
+    show isIdentStart 34 = false from rfl, show Bytes.isDigit 34 = false from rfl, show (34 == 46) = false from rfl,
+    BEq.rfl, hs]
+
+theorem scanOne_escaped (v tail : Bytes) (hv : v.all (· < 256) = true) :
+    scanOne (spellStr .escaped v ++ tail) = .ok (.str v, tail) := by
+  have := scanOne_quoted (body := (v.map escByte).flatten) (tail := tail) (v := v)
+    (flatten_length_ge _ (by intro b; simp [escByte]) v)
+    (by intro f hf; simpa using scanStr_escaped tail v f [] hv hf)
+  simpa [spellStr] using this
+
+theorem scanOne_plain (v tail : Bytes) (hv : v.all (· < 256) = true) :
+    scanOne (spellStr .plain v ++ tail) = .ok (.str v, tail) := by
+  have := scanOne_quoted (body := (v.map fun b => if plainByte b then [b] else escByte b).flatten) (tail := tail) (v := v)
+    (flatten_length_ge _ (by intro b; split <;> simp [escByte]) v)
+    (by intro f hf; simpa using scanStr_plain tail v f [] hv hf)
+  simpa [spellStr] using this
+
+theorem scanOne_raw (v tail : Bytes) (hv : v.contains 96 = false) :
+    scanOne (spellStr .raw v ++ tail) = .ok (.str v, tail) := by
+  simp only [spellStr, List.cons_append, List.append_assoc, List.nil_append]
+  unfold scanOne
+  have hs := scanRaw_append tail v [] hv
+  simp only [List.nil_append] at hs
+  simp only [show ¬ (96 ≥ 128) by omega, ↓reduceIte, show (96 == 45) = false from rfl, Bool.false_and, Bool.false_eq_true,
+    show isIdentStart 96 = false from rfl, show Bytes.isDigit 96 = false from rfl, show (96 == 46) = false from rfl,
+    show (96 == 34) = false from rfl, BEq.rfl, hs]
+
+theorem hexDigit_asc (n : Nat) (h : n < 16) : hexDigit n ≠ 0 ∧ hexDigit n < 128 := by
+  unfold hexDigit; split <;> omega
+
+theorem asc_escByte (b : Nat) (hb : b < 256) : asc (escByte b) = true := by
+  have h1 := hexDigit_asc (b / 16) (by omega)
+  have h2 := hexDigit_asc (b % 16) (by omega)
+  simp [escByte, asc, h1, h2]
+
+theorem asc_flatten (f : Nat → Bytes) : ∀ v : Bytes, (∀ b ∈ v, asc (f b) = true) → asc (v.map f).flatten = true := by
+  intro v
+  induction v with
+  | nil => intro _; rfl
+  | cons b v ih =>
+    intro h
+    simp only [List.map_cons, List.flatten_cons, asc_append, Bool.and_eq_true]
+    exact ⟨h b (by simp), ih (fun x hx => h x (by simp [hx]))⟩
+
+theorem asc_spellStr_escaped (v : Bytes) (hv : v.all (· < 256) = true) : asc (spellStr .escaped v) = true := by
+  simp only [List.all_eq_true, decide_eq_true_eq] at hv
+  simp only [spellStr, asc_cons, asc_append, asc_nil, Bool.and_true]
+  rw [asc_flatten _ v (fun b hb => asc_escByte b (hv b hb))]; rfl
+
+theorem asc_spellStr_plain (v : Bytes) (hv : v.all (· < 256) = true) : asc (spellStr .plain v) = true := by
+  simp only [List.all_eq_true, decide_eq_true_eq] at hv
+  simp only [spellStr, asc_cons, asc_append, asc_nil, Bool.and_true]
+  rw [asc_flatten _ v (fun b hb => by
+    split
+    · rename_i hp
+      simp only [plainByte, Bool.and_eq_true, decide_eq_true_eq, bne_iff_ne, ne_eq] at hp
+      simp [asc]; omega
+    · exact asc_escByte b (hv b hb))]; rfl
+
+theorem asc_spellStr_raw (v : Bytes) (hv : asc v = true) : asc (spellStr .raw v) = true := by
+  simp [spellStr, asc_cons, asc_append, asc_nil, hv]
+
+
+/-! ## the shapes of an admissible piece -/
+
+inductive Shape (p : Piece) : Prop where
+  | ident (c : Nat) (r : Bytes) (htok : p.tok = .ident (c :: r)) (htext : p.text = c :: r)
+      (hc : isIdentStart c = true) (hr : r.all isIdentPart = true) (hk : kwOf (c :: r) = none)
+  | word (k : K) (c : Nat) (r : Bytes) (htok : p.tok = .kw k) (htext : p.text = c :: r)
+      (hc : isIdentStart c = true) (hr : r.all isIdentPart = true) (hk : kwOf (c :: r) = some k)
+  | op1 (k : K) (c : Nat) (htok : p.tok = .kw k) (htext : p.text = [c]) (hk : kwOf [c] = some k)
+      (hasc : asc [c] = true) (hid : isIdentStart c = false) (hsp : isSpace c = false) (h35 : c ≠ 35) (h34 : c ≠ 34)
+      (h96 : c ≠ 96) (hdig : Bytes.isDigit c = false)
+  | op2 (k : K) (c d : Nat) (htok : p.tok = .kw k) (htext : p.text = [c, d]) (hk : kwOf [c, d] = some k)
+      (hasc : asc [c, d] = true) (hid : isIdentStart c = false) (hsp : isSpace c = false) (h35 : c ≠ 35) (h34 : c ≠ 34)
+      (h96 : c ≠ 96) (hdig : Bytes.isDigit c = false) (h45 : c ≠ 45) (h46 : c ≠ 46) (h47 : c ≠ 47)
+  | strE (v : Bytes) (htok : p.tok = .str v) (hv : v.all (· < 256) = true) (htext : p.text = spellStr .escaped v)
+  | strP (v : Bytes) (htok : p.tok = .str v) (hv : v.all (· < 256) = true) (htext : p.text = spellStr .plain v)
+  | strR (v : Bytes) (htok : p.tok = .str v) (htext : p.text = spellStr .raw v) (h96 : v.contains 96 = false)
+      (hasc : asc v = true)
+  | num (hn : numLike p.tok = true) (hs : scanOne p.text = .ok (p.tok, []))
+
+theorem shape_num {p : Piece} (hn : numLike p.tok = true)
+    (h : (match scanOne p.text with | .ok (t, []) => t == p.tok | _ => false) = true) : Shape p := by
+  refine .num hn ?_
+  split at h
+  · rename_i t heq
+    have : t = p.tok := by simpa using h
+    rw [← this]; exact heq
+  · simp at h
+
+theorem shape_of_spellOK (p : Piece) (h : spellOK p = true) : Shape p := by
+  obtain ⟨tok, text, gap⟩ := p
+  unfold spellOK at h
+  simp only at h
+  cases tok with
+  | ident w =>
+    simp only [Bool.and_eq_true, beq_iff_eq, Option.isNone_iff_eq_none] at h
+    obtain ⟨⟨rfl, h2⟩, h3⟩ := h
+    cases text with
+    | nil => simp at h2
+    | cons c r =>
+      simp only [Bool.and_eq_true] at h2
+      exact .ident c r rfl rfl h2.1 h2.2 h3
+  | kw k =>
+    simp only [Bool.and_eq_true, beq_iff_eq, bne_iff_ne, ne_eq, Bool.not_eq_true', List.isEmpty_eq_false_iff] at h
+    obtain ⟨⟨_, rfl⟩, h3⟩ := h
+    have kf := kwFacts_all k
+    unfold kwFacts at kf
+    cases hs : spellKw k with
+    | nil => exact absurd hs h3
+    | cons c rest =>
+      simp only [hs, Bool.and_eq_true, beq_iff_eq, Bool.not_eq_true', bne_iff_ne, ne_eq] at kf
+      obtain ⟨⟨⟨⟨k1, k2⟩, k3⟩, k4⟩, k5⟩ := kf
+      by_cases hid : isIdentStart c = true
+      · simp only [hid, ↓reduceIte] at k5
+        exact .word k c rest rfl rfl hid k5 k1
+      · simp only [hid, Bool.false_eq_true, ↓reduceIte, Bool.and_eq_true, bne_iff_ne, ne_eq, Bool.not_eq_true'] at k5
+        obtain ⟨⟨⟨k6, k7⟩, k8⟩, k9⟩ := k5
+        have hid' : isIdentStart c = false := by simpa using hid
+        match rest, k9 with
+        | [], _ => exact .op1 k c rfl rfl k1 k2 hid' k3 k4 k6 k7 k8
+        | [d], k9 =>
+          simp only [Bool.and_eq_true, bne_iff_ne, ne_eq] at k9
+          exact .op2 k c d rfl rfl k1 k2 hid' k3 k4 k6 k7 k8 k9.1.1 k9.1.2 k9.2
+        | _ :: _ :: _, k9 => simp at k9
+  | str v =>
+    simp only [Bool.and_eq_true, Bool.or_eq_true, beq_iff_eq, Bool.not_eq_true'] at h
+    obtain ⟨hv, (rfl | rfl) | ⟨⟨rfl, h96⟩, hasc⟩⟩ := h
+    · exact .strE v rfl hv rfl
+    · exact .strP v rfl hv rfl
+    · exact .strR v rfl rfl h96 hasc
+  | num t => exact shape_num rfl h
+  | dur t => exact shape_num rfl h
+  | bytes t => exact shape_num rfl h
+
+
+/-! ## what the proofs need about one piece -/
+
+theorem piece_asc {p : Piece} (h : spellOK p = true) : asc p.text = true := by
+  cases shape_of_spellOK p h with
+  | ident c r htok htext hc hr hk =>
+    rw [htext]
+    exact asc_of_all identPart_asc (by simp [(identStart_facts hc).2.2.2.2.2.2, hr])
+  | word k c r htok htext hc hr hk =>
+    rw [htext]
+    exact asc_of_all identPart_asc (by simp [(identStart_facts hc).2.2.2.2.2.2, hr])
+  | op1 k c htok htext hk hasc => rw [htext]; exact hasc
+  | op2 k c d htok htext hk hasc => rw [htext]; exact hasc
+  | strE v htok hv htext => rw [htext]; exact asc_spellStr_escaped v hv
+  | strP v htok hv htext => rw [htext]; exact asc_spellStr_plain v hv
+  | strR v htok htext h96 hasc => rw [htext]; exact asc_spellStr_raw v hasc
+  | num hn hs => exact scanOne_num_asc hs hn
+
+theorem digit_facts {c : Nat} (h : Bytes.isDigit c = true) : isSpace c = false ∧ c ≠ 35 ∧ c ≠ 47 := by
+  simp only [Bytes.isDigit, Bool.and_eq_true, decide_eq_true_eq] at h
+  refine ⟨?_, by omega, by omega⟩
+  simp only [isSpace, isWs, Bool.or_eq_false_iff, beq_eq_false_iff_ne, ne_eq]; omega
+
+/-- the first byte of a piece is not white space and does not start a `#` comment; only the division
+operator starts with `/` -/
+theorem piece_start {p : Piece} (h : spellOK p = true) :
+    ∃ c r, p.text = c :: r ∧ isSpace c = false ∧ c ≠ 35 ∧ (c = 47 → r = [] ∧ ∃ k, p.tok = .kw k) := by
+  cases shape_of_spellOK p h with
+  | ident c r htok htext hc hr hk =>
+    obtain ⟨-, -, -, h35, h47, hsp, -⟩ := identStart_facts hc
+    exact ⟨c, r, htext, hsp, h35, fun h => absurd h h47⟩
+  | word k c r htok htext hc hr hk =>
+    obtain ⟨-, -, -, h35, h47, hsp, -⟩ := identStart_facts hc
+    exact ⟨c, r, htext, hsp, h35, fun h => absurd h h47⟩
+  | op1 k c htok htext hk hasc hid hsp h35 => exact ⟨c, [], htext, hsp, h35, fun _ => ⟨rfl, k, htok⟩⟩
+  | op2 k c d htok htext hk hasc hid hsp h35 h34 h96 hdig h45 h46 h47 =>
+    exact ⟨c, [d], htext, hsp, h35, fun h => absurd h h47⟩
+  | strE v htok hv htext => exact ⟨34, _, by rw [htext]; rfl, rfl, by omega, by omega⟩
+  | strP v htok hv htext => exact ⟨34, _, by rw [htext]; rfl, rfl, by omega, by omega⟩
+  | strR v htok htext h96 hasc => exact ⟨96, _, by rw [htext]; rfl, rfl, by omega, by omega⟩
+  | num hn hs =>
+    obtain ⟨c0, r, htext, hc0, hid, hcase⟩ := scanOne_num_inv hs hn
+    rcases hcase with ⟨hd, -⟩ | ⟨hd, rfl, -⟩
+    · obtain ⟨h1, h2, h3⟩ := digit_facts hd
+      exact ⟨c0, r, htext, h1, h2, fun h => absurd h h3⟩
+    · exact ⟨46, r, htext, rfl, by omega, by omega⟩
+
+theorem piece_gapStop {p : Piece} {tail : Bytes} (h : spellOK p = true) (hf : followOK p tail = true) :
+    gapStop (p.text ++ tail) = true := by
+  obtain ⟨c, r, htext, hsp, h35, h47⟩ := piece_start h
+  have hws : isWs c = false := by
+    simp only [isSpace, Bool.or_eq_false_iff] at hsp; exact hsp.1.1
+  have h35' : (c != 35) = true := by simp [h35]
+  rw [htext]
+  simp only [List.cons_append, gapStop, hws, Bool.not_false, Bool.true_and, h35', Bool.not_eq_true', Bool.and_eq_false_iff,
+    beq_eq_false_iff_ne, ne_eq]
+  by_cases hc : c = 47
+  · right
+    obtain ⟨rfl, k, htok⟩ := h47 hc
+    subst hc
+    unfold followOK at hf
+    simp only [htok, htext, show isIdentStart 47 = false from rfl, Bool.false_eq_true, ↓reduceIte, List.isEmpty_nil,
+      Bool.and_eq_true] at hf
+    cases tail with
+    | nil => rfl
+    | cons d t =>
+      simp only [BEq.rfl, Bool.true_and, Bool.and_eq_true, Bool.not_eq_true', Bool.or_eq_false_iff,
+        beq_eq_false_iff_ne, ne_eq] at hf
+      obtain ⟨-, ⟨⟨-, h1, h2⟩, -⟩, -⟩ := hf
+      simp only [List.nil_append]
+      split <;> simp_all
+  · left; exact hc
+
+theorem piece_scan {p : Piece} {tail : Bytes} (h : spellOK p = true) (hf : followOK p tail = true) :
+    scanOne (p.text ++ tail) = .ok (p.tok, tail) ∨
+    scanOne (p.text ++ tail) = .ok (p.tok, skipSpaceC (tail.length + 1) tail) := by
+  unfold followOK at hf
+  cases shape_of_spellOK p h with
+  | ident c r htok htext hc hr hk =>
+    left
+    rw [htext, htok]
+    refine (scanOne_word hc hr ?_).1 hk
+    simp only [htok, Bool.and_eq_true] at hf
+    cases tail with
+    | nil => trivial
+    | cons d t => simp only [decide_eq_true_eq, Bool.not_eq_true'] at hf; exact ⟨hf.2, hf.1⟩
+  | word k c r htok htext hc hr hk =>
+    rw [htext, htok]
+    simp only [htok, htext, hc, ↓reduceIte, Bool.and_eq_true, Bool.or_eq_true, Bool.not_eq_true'] at hf
+    obtain ⟨hf1, hf2, hf3⟩ := hf
+    have hstop : wordStop tail := by
+      cases tail with
+      | nil => trivial
+      | cons d t => simp only [decide_eq_true_eq, Bool.not_eq_true'] at hf1 hf2; exact ⟨hf2, hf1⟩
+    obtain ⟨-, w2, w3⟩ := scanOne_word (c := c) (r := r) hc hr hstop
+    rcases hf3 with hfn | hla
+    · left; exact w2 k hk hfn
+    · by_cases hfn : isFunctionK k = true
+      · right; exact w3 k hk hfn hla
+      · left; exact w2 k hk (by simpa using hfn)
+  | op1 k c htok htext hk hasc hid hsp h35 h34 h96 hdig =>
+    left
+    rw [htext, htok]
+    have hc128 : c < 128 := by simp [asc] at hasc; exact hasc.2
+    simp only [htok, htext, hid, Bool.false_eq_true, ↓reduceIte, List.isEmpty_nil, Bool.and_eq_true] at hf
+    cases tail with
+    | nil => exact scanOne_op_nil hc128 hid hdig h34 h96 hk
+    | cons d t =>
+      simp only [Bool.and_eq_true, Bool.not_eq_true', Option.isNone_iff_eq_none] at hf
+      obtain ⟨-, ⟨⟨hk2, -⟩, hflag⟩, hnum⟩ := hf
+      exact scanOne_op_one hc128 hid hdig h34 h96 hk hk2 hflag hnum
+  | op2 k c d htok htext hk hasc hid hsp h35 h34 h96 hdig h45 h46 h47 =>
+    left
+    rw [htext, htok]
+    have hc128 : c < 128 := by simp [asc] at hasc; exact hasc.1.2
+    exact scanOne_op_two hc128 hid hdig h34 h96 h45 h46 hk
+  | strE v htok hv htext => left; rw [htext, htok]; exact scanOne_escaped v tail hv
+  | strP v htok hv htext => left; rw [htext, htok]; exact scanOne_plain v tail hv
+  | strR v htok htext h96 hasc => left; rw [htext, htok]; exact scanOne_raw v tail h96
+  | num hn hs =>
+    left
+    cases tail with
+    | nil => simpa using hs
+    | cons d t =>
+      have hd : d < 128 ∧ numStop d = true := by
+        cases htk : p.tok with
+        | num x => simpa [htk, numStop] using hf
+        | dur x => simpa [htk, numStop] using hf
+        | bytes x => simpa [htk, numStop] using hf
+        | ident x => simp [htk, numLike] at hn
+        | str x => simp [htk, numLike] at hn
+        | kw x => simp [htk, numLike] at hn
+      exact scanOne_num_stable t hd.2 hd.1 hs hn
+
+
+/-! ## the main induction -/
+
+theorem render_cons (p : Piece) (r : List Piece) : render (p :: r) = p.text ++ (gapBytes p.gap ++ render r) := by
+  simp [render]
+
+theorem render_asc : ∀ ps : List Piece, piecesOK ps = true → asc (render ps) = true := by
+  intro ps
+  induction ps with
+  | nil => intro _; rfl
+  | cons p r ih =>
+    intro h
+    simp only [piecesOK, List.all_cons, Bool.and_eq_true] at h
+    rw [render_cons, asc_append, asc_append, piece_asc h.1.1, asc_gap _ h.1.2, ih (by simpa [piecesOK] using h.2)]; rfl
+
+theorem render_start (ps : List Piece) (h : piecesOK ps = true) :
+    match render ps with | [] => True | c :: _ => isSpace c = false ∧ c ≠ 35 := by
+  cases ps with
+  | nil => simp [render]
+  | cons q r =>
+    simp only [piecesOK, List.all_cons, Bool.and_eq_true] at h
+    obtain ⟨c, t, ht, h1, h2, -⟩ := piece_start h.1.1
+    simp only [render_cons, ht, List.cons_append]
+    exact ⟨h1, h2⟩
+
+theorem tokenizeFrom_render : ∀ (ps : List Piece) (lead : Gap) (f : Nat), lead.all GapItem.ok = true →
+    piecesOK ps = true → Sep ps = true → (gapBytes lead ++ render ps).length < f →
+    tokenizeFrom f (gapBytes lead ++ render ps) = .ok (ps.map (·.tok)) := by
+  intro ps
+  induction ps with
+  | nil =>
+    intro lead f hl _ _ hf
+    cases f with
+    | zero => omega
+    | succ f =>
+      unfold tokenizeFrom
+      have hlen : lead.length < (gapBytes lead ++ render []).length + 1 := by
+        have := gap_length_le lead
+        simp only [List.length_append]; omega
+      rw [show render [] = [] from rfl] at hlen ⊢
+      rw [skipGap_gap lead [] _ hl rfl hlen]
+      rfl
+  | cons p rest ih =>
+    intro lead f hl hok hsep hf
+    cases f with
+    | zero => omega
+    | succ f =>
+      have hok' := hok
+      simp only [piecesOK, List.all_cons, Bool.and_eq_true] at hok'
+      obtain ⟨⟨hsp, hgap⟩, hrest⟩ := hok'
+      have hrest' : piecesOK rest = true := by simpa [piecesOK] using hrest
+      simp only [Layout.Sep, Bool.and_eq_true] at hsep
+      obtain ⟨hfol, hsep'⟩ := hsep
+      rw [render_cons] at hf ⊢
+      generalize htail : gapBytes p.gap ++ render rest = tail at hf hfol ⊢
+      have hstop := piece_gapStop hsp hfol
+      have hscan := piece_scan hsp hfol
+      obtain ⟨c, r, htext, -⟩ := piece_start hsp
+      have hlen : lead.length < (gapBytes lead ++ (p.text ++ tail)).length + 1 := by
+        have := gap_length_le lead
+        simp only [List.length_append]; omega
+      have hflen : tail.length < f := by
+        simp only [List.length_append, htext, List.length_cons] at hf; omega
+      unfold tokenizeFrom
+      rw [skipGap_gap lead _ _ hl hstop hlen]
+      rw [htext] at hscan ⊢
+      simp only [List.cons_append] at hscan ⊢
+      rcases hscan with hscan | hscan
+      · rw [hscan]
+        simp only
+        rw [← htail, ih p.gap f hgap hrest' hsep' (by rw [htail]; exact hflen)]
+        rfl
+      · rw [hscan]
+        simp only
+        obtain ⟨g', hg1, hg2, hg3⟩ := skipSpaceC_gap (render rest) (render_start rest hrest') p.gap ((gapBytes p.gap ++ render rest).length + 1) hgap
+        rw [← htail, hg3, ih g' f hg1 hrest' hsep' (by
+          rw [← htail] at hflen
+          simp only [List.length_append] at hflen ⊢; omega)]
+        rfl
+
+theorem tokenize_render (lead : Layout.Gap) (ps : List Layout.Piece)
+    (hl : lead.all Layout.GapItem.ok = true) (hok : Layout.piecesOK ps = true) (hsep : Layout.Sep ps = true) :
+    Lexer.tokenize (Layout.gapBytes lead ++ Layout.render ps) = .ok (ps.map (·.tok)) := by
+  unfold tokenize
+  have hasc : asc (gapBytes lead ++ render ps) = true := by
+    rw [asc_append, asc_gap lead hl, render_asc ps hok]; rfl
+  rw [validText_asc _ _ hasc (Nat.lt_succ_self _)]
+  exact tokenizeFrom_render ps lead _ hl hok hsep (Nat.lt_succ_self _)
+
+theorem layout_independent (lead₁ lead₂ : Layout.Gap) (ps₁ ps₂ : List Layout.Piece)
+    (h₁ : lead₁.all Layout.GapItem.ok = true ∧ Layout.piecesOK ps₁ = true ∧ Layout.Sep ps₁ = true)
+    (h₂ : lead₂.all Layout.GapItem.ok = true ∧ Layout.piecesOK ps₂ = true ∧ Layout.Sep ps₂ = true)
+    (htoks : ps₁.map (·.tok) = ps₂.map (·.tok)) :
+    Lexer.tokenize (Layout.gapBytes lead₁ ++ Layout.render ps₁) = Lexer.tokenize (Layout.gapBytes lead₂ ++ Layout.render ps₂) := by
+  rw [tokenize_render lead₁ ps₁ h₁.1 h₁.2.1 h₁.2.2, tokenize_render lead₂ ps₂ h₂.1 h₂.2.1 h₂.2.2, htoks]
+
+
+/-! ## non-vacuity -/
+
+section Examples
+
+private def B (s : String) : Bytes := Bytes.ofString s
+
+/-- `sum by (a) (rate({a="x"}[5m])) > 1.5` with a `#` comment, a block comment, a `//` comment, a line
+feed between the function name and its parenthesis, and the string in raw style -/
+def exPieces₁ : List Piece := [
+  ⟨.kw .sum, B "sum", [.ws 32]⟩,
+  ⟨.kw .by_, B "by", [.ws 32, .hash (B "grouping")]⟩,
+  ⟨.kw .lparen, B "(", []⟩,
+  ⟨.ident (B "a"), B "a", []⟩,
+  ⟨.kw .rparen, B ")", [.ws 32, .block (B " inner * ")]⟩,
+  ⟨.kw .lparen, B "(", []⟩,
+  ⟨.kw .rate, B "rate", [.ws 10]⟩,
+  ⟨.kw .lparen, B "(", []⟩,
+  ⟨.kw .lbrace, B "{", []⟩,
+  ⟨.ident (B "a"), B "a", [.ws 32]⟩,
+  ⟨.kw .eq, B "=", [.line (B " eq")]⟩,
+  ⟨.str (B "x"), B "`x`", []⟩,
+  ⟨.kw .rbrace, B "}", []⟩,
+  ⟨.kw .lbracket, B "[", []⟩,
+  ⟨.dur (B "5m"), B "5m", []⟩,
+  ⟨.kw .rbracket, B "]", []⟩,
+  ⟨.kw .rparen, B ")", []⟩,
+  ⟨.kw .rparen, B ")", [.ws 32]⟩,
+  ⟨.kw .gt, B ">", [.ws 32]⟩,
+  ⟨.num (B "1.5"), B "1.5", []⟩]
+
+/-- the same tokens in the plainest layout, the string written with `\x` escapes -/
+def exPieces₂ : List Piece := [
+  ⟨.kw .sum, B "sum", [.ws 32]⟩,
+  ⟨.kw .by_, B "by", [.ws 32]⟩,
+  ⟨.kw .lparen, B "(", []⟩,
+  ⟨.ident (B "a"), B "a", []⟩,
+  ⟨.kw .rparen, B ")", [.ws 32]⟩,
+  ⟨.kw .lparen, B "(", []⟩,
+  ⟨.kw .rate, B "rate", []⟩,
+  ⟨.kw .lparen, B "(", []⟩,
+  ⟨.kw .lbrace, B "{", []⟩,
+  ⟨.ident (B "a"), B "a", []⟩,
+  ⟨.kw .eq, B "=", []⟩,
+  ⟨.str (B "x"), B "\"\\x78\"", []⟩,
+  ⟨.kw .rbrace, B "}", []⟩,
+  ⟨.kw .lbracket, B "[", []⟩,
+  ⟨.dur (B "5m"), B "5m", []⟩,
+  ⟨.kw .rbracket, B "]", []⟩,
+  ⟨.kw .rparen, B ")", []⟩,
+  ⟨.kw .rparen, B ")", [.ws 32]⟩,
+  ⟨.kw .gt, B ">", [.ws 32]⟩,
+  ⟨.num (B "1.5"), B "1.5", [.ws 10]⟩]
+
+def exLead₁ : Gap := [.ws 9, .block (B "query")]
+
+example : gapBytes exLead₁ ++ render exPieces₁ =
+    B "\t/*query*/sum by #grouping\n(a) /* inner * */(rate\n({a =// eq\n`x`}[5m])) > 1.5" := by decide +kernel
+example : render exPieces₂ = B "sum by (a) (rate({a=\"\\x78\"}[5m])) > 1.5\n" := by decide +kernel
+
+example : exLead₁.all GapItem.ok = true ∧ piecesOK exPieces₁ = true ∧ Layout.Sep exPieces₁ = true := by decide +kernel
+example : piecesOK exPieces₂ = true ∧ Layout.Sep exPieces₂ = true := by decide +kernel
+
+example : tokenize (gapBytes exLead₁ ++ render exPieces₁) = .ok (exPieces₁.map (·.tok)) :=
+  tokenize_render exLead₁ exPieces₁ (by decide +kernel) (by decide +kernel) (by decide +kernel)
+
+example : tokenize (gapBytes exLead₁ ++ render exPieces₁) = tokenize (gapBytes [] ++ render exPieces₂) :=
+  layout_independent exLead₁ [] exPieces₁ exPieces₂ (by decide +kernel) (by decide +kernel) (by decide +kernel)
+
+/-- corner cases: `1.` and `.5`, a gap directly after `/`, `-` and `.`, an empty string literal, a string in
+plain style with an escaped byte -/
+def exPieces₃ : List Piece := [
+  ⟨.num (B "1."), B "1.", [.ws 32]⟩,
+  ⟨.kw .div, B "/", [.ws 32, .block (B "*")]⟩,
+  ⟨.num (B ".5"), B ".5", []⟩,
+  ⟨.kw .sub, B "-", [.hash []]⟩,
+  ⟨.str [], B "\"\"", []⟩,
+  ⟨.kw .dot, B ".", [.ws 9]⟩,
+  ⟨.str [97, 10, 200], B "\"a\\x0a\\xc8\"", [.line (B "/")]⟩,
+  ⟨.bytes (B "2KiB"), B "2KiB", []⟩]
+
+example : render exPieces₃ = B "1. / /***/.5-#\n\"\".\t\"a\\x0a\\xc8\"///\n2KiB" := by decide +kernel
+example : piecesOK exPieces₃ = true ∧ Layout.Sep exPieces₃ = true := by decide +kernel
+example : tokenize (render exPieces₃) = .ok (exPieces₃.map (·.tok)) := by
+  simpa [gapBytes] using tokenize_render [] exPieces₃ rfl (by decide +kernel) (by decide +kernel)
+
+/-- a lead gap alone -/
+example : tokenize (gapBytes exLead₁) = .ok [] := by
+  simpa [render] using tokenize_render exLead₁ [] (by decide +kernel) rfl rfl
+
+end Examples
+
 end C05Layout
